@@ -1814,7 +1814,8 @@ def _default_instruction_set(ctx):
             elif name == 'run':
                 # run: the phase's adapter over multi_phase/run.py's own parts parser (embryo class: `%` / `$`'s; C10)
                 ok = type(parser) is from_parts_parser \
-                    and type(parser.instruction_parts_parser) is run_module._InstructionPartsParser
+                    and type(parser.instruction_parts_parser) is run_module._InstructionPartsParser \
+                    and type(parser.instruction_parts_parser._embryo_parser) is _exe_program.InstructionEmbryoParser
             else:
                 parts_parser = getattr(parser, 'instruction_parts_parser', None)
                 ok = name in embryo_parsers and type(parser) is from_parts_parser \
@@ -1826,3 +1827,78 @@ def _default_instruction_set(ctx):
                            backend='enumeration', detail={'parser': how})
     ctx.obligation('the instruction set was found (47 instructions in the four phases)', n == 47,
                    backend='enumeration', detail={'instructions': n})
+
+
+# ====================================================================================== 5: main of copy; run's parts parser
+# (C18 view: what escapes from main; the places a copy may write to are C12's subject)
+from exactly_lib.impls.exception import hard_error_transl as _hard_error_transl
+from exactly_lib.impls.instructions.multi_phase import run as _run_module
+
+
+class ProcedureI(Interface):
+    methods = {'__call__': Method(returns=Any_, may_raise=c01.RAISES, event='procedure')}
+
+
+M.contract('exactly_lib.impls.exception.hard_error_transl:return_success_or_hard_error',
+           params=dict(procedure=Iface(ProcedureI), args=FixedList(Any_, as_tuple=True), kwargs=Const({})),
+           returns=SH, inline=True,
+           ensures={'the procedure is called once': lambda procedure, trace:
+           [(e[0], e[1]) for e in trace if e[0] == 'procedure'] == [('procedure', procedure)],
+                    'success iff it returns; a HardErrorException is a HARD_ERROR with its message': lambda result, trace:
+                    (sh_kind(result) is None) if outcome_event(trace, 'procedure')[0] == 'returned' else
+                    (sh_kind(result) == 'HARD_ERROR' and result.failure_message is outcome_event(trace, 'procedure')[1].error)},
+           raises={ArbitraryException: {'ensures': lambda exc, trace: outcome_event(trace, 'procedure') == ('raised', exc)}},
+           raises_only=())
+
+
+class OsServicesOfCopyI(Interface):
+    """OsServices: its operations fail with HardErrorException (documented) -- or anything else"""
+    methods = {'copy_tree__preserve_as_much_as_possible': Method(may_raise=c01.RAISES, event='copy-tree'),
+               'copy_file__preserve_as_much_as_possible': Method(may_raise=c01.RAISES, event='copy-file'),
+               'make_dir_if_not_exists': Method(may_raise=c01.RAISES, event='make-dir')}
+
+
+GPATH = Custom(lambda interp, name: _fsmodel.mk_path(interp, Str.make(interp, name)))
+
+
+def copies(trace):
+    return [(e[0], e[2]) for e in trace if e[0] in ('copy-tree', 'copy-file')]
+
+
+M.contract(P_I + 'multi_phase.copy:_install_into_directory',
+           params=dict(os_services=Iface(OsServicesOfCopyI), src_file_path=GPATH, dst_file_name=Str,
+                       dst_container_path=GPATH),
+           ensures={'exactly one copy: of the source, to the name given in the container given':
+                    lambda src_file_path, dst_file_name, dst_container_path, trace:
+                    len(copies(trace)) == 1
+                    and copies(trace)[0][1] == (str(src_file_path), str(dst_container_path / dst_file_name))},
+           raises={HardErrorException: {'ensures': lambda trace:
+           # the target exists already (nothing is copied then), or the copying failed
+           len(copies(trace)) <= 1},
+                   ArbitraryException: {}},
+           raises_only=())
+
+class EmbryoParserOfRunI(Interface):
+    methods = {'parse': Method(returns=Iface(EmbryoI), may_raise=(_mk_arbitrary,), event='parse-embryo')}
+
+
+class OptionIsPresentParserI(Interface):
+    methods = {'parse': Method(returns=Bool, may_raise=(_mk_arbitrary,), event='parse-option')}
+
+
+M.contract(P_I + 'multi_phase.run:_InstructionPartsParser.parse',
+           params=dict(self=Inst(_run_module._InstructionPartsParser, _embryo_parser=Iface(EmbryoParserOfRunI),
+                                 _IGNORE_EXIT_CODE_OPTION_PARSER=Iface(OptionIsPresentParserI)),
+                       fs_location_info=Any_, source=Any_),
+           returns=Inst(iparts.InstructionParts, _tuple=[Any_, Any_, Any_]),
+           ensures={
+               'the parts of the embryo that the embryo parser made of the source: its validator, its main':
+                   lambda result, trace:
+                   result.validator is outcome_event(trace, 'parse-embryo')[1].validator
+                   and result.executor.main_step is outcome_event(trace, 'parse-embryo')[1],
+               'the exit code is ignored iff the option is given': lambda result, trace:
+               isinstance(result.executor.result_translator, ipu.MainStepResultTranslatorForUnconditionalSuccess)
+               == outcome_event(trace, 'parse-option')[1],
+               'nothing is validated or run': lambda trace: steps(trace) == [] and quiet(trace),
+           },
+           raises={ArbitraryException: {}}, raises_only=())
